@@ -84,6 +84,9 @@ def make_wf(ctx, atoms, shells, conv="horton2", mo_kind="restricted", norb=None,
             occs = np.array([2.0] * norb)
         elif occ == "rohf":
             occs = np.array([2.0] * (norb - 1) + [1.0]) if norb > 1 else np.array([1.0])
+        elif occ == "hole":
+            # not an aufbau filling: an empty orbital below an occupied one
+            occs = np.array([0.0] + [2.0] * (norb - 1)) if norb > 1 else np.array([2.0])
         elif occ == "fractional":
             occs = np.array([1.6, 0.4][:norb] + [0.0] * max(0, norb - 2))
         elif occ == "aminusb-zero":
